@@ -1,5 +1,256 @@
 /-
-C04 — property theorems (stub: not built yet).
+C04 — compile-time facts published for a pattern hold at every real match.
+
+`syntax.FindOptimizations` publishes, for a compiled pattern, a minimum and (sometimes) a maximum
+match length, a leading and a trailing anchor and a leading literal prefix; the scan loop uses them to
+skip positions and to give up early.  `Model/Facts.lean` mirrors the Go analyses
+(`ComputeMinLength`, `computeMaxLength`, `findLeadingOrTrailingAnchor`, `tryFindPrefix`) on the
+specification's pattern AST, i.e. on the image of the engine's own reduced tree (the harness converts
+it, leg F compares the model's answers with what the engine publishes).  The theorems here say that
+what the analyses compute is true of EVERY success of the pattern under the specification semantics
+`Spec.m` — for every input, direction, start state, and not only of the highest-priority success —
+and hence of every result of `Spec.find`.
+
+Not modelled: first-character classes, fixed-distance sets and strings, literal-after-loop, landmark
+chains, Boyer-Moore tables, the case-insensitive prefix, multi-prefix search, the right-to-left
+prefix (not used by the engine), and the substitution of a leading positive lookahead's facts.
 -/
+import RegexVerif.Lemmas.Facts
+import RegexVerif.Model.Scan
+
 namespace RegexVerif.Props.C04
+open RegexVerif RegexVerif.Spec RegexVerif.Facts
+
+/-- **Positions only move in the direction of the match**: every success of every pattern ends at or
+    after its start when matching left-to-right, at or before it when matching right-to-left
+    (lookarounds and conditions restore the position).  Match lengths are therefore
+    `st'.pos - st.pos` resp. `st.pos - st'.pos`, the `span` of the theorems below. -/
+theorem m_monotone (e : Env) (p : Pat) (rtl : Bool) (st st' : St) (h : st' ∈ m e p rtl st) :
+    if rtl then st'.pos ≤ st.pos else st.pos ≤ st'.pos :=
+  m_fwd e p rtl st st' h
+
+/-- **`ComputeMinLength` is a lower bound**: every success consumes at least `minLen p` characters.
+    (`FindOptimizations.MinRequiredLength`; the scan loop does not attempt where fewer characters
+    remain.) -/
+theorem minLen_sound (e : Env) (p : Pat) (rtl : Bool) (st st' : St) (h : st' ∈ m e p rtl st) :
+    minLen p ≤ (if rtl then st.pos - st'.pos else st'.pos - st.pos) :=
+  minLen_span e p rtl st st' h
+
+/-- **`computeMaxLength` is an upper bound**: when it yields a length (`≠ -1`), no success consumes
+    more.  (`FindOptimizations.MaxPossibleLength`, used with a trailing `\z`/`\Z` to jump to the only
+    possible start.) -/
+theorem maxLen_sound (e : Env) (p : Pat) (rtl : Bool) (st st' : St) (h : st' ∈ m e p rtl st)
+    (k : Nat) (hk : maxLen p = some k) :
+    (if rtl then st.pos - st'.pos else st'.pos - st.pos) ≤ k :=
+  maxLen_span e p rtl st st' h k hk
+
+/-- the two bounds together: a pattern whose minimum and maximum coincide matches exactly that many
+    characters (the `TrailingAnchor_FixedLength` find modes) -/
+theorem fixedLength_sound (e : Env) (p : Pat) (rtl : Bool) (st st' : St) (h : st' ∈ m e p rtl st)
+    (hk : maxLen p = some (minLen p)) :
+    (if rtl then st.pos - st'.pos else st'.pos - st.pos) = minLen p :=
+  Nat.le_antisymm (maxLen_sound e p rtl st st' h _ hk) (minLen_sound e p rtl st st' h)
+
+/-- **The leading anchor holds where the attempt starts**: if `findLeadingOrTrailingAnchor(root, true)`
+    finds an anchor (`Bol, Eol, Beginning, Start, EndZ, End, Boundary`), that anchor is true at the
+    start position of every success — so the scan loop may skip every start position where it is
+    false. -/
+theorem leadingAnchor_sound (e : Env) (p : Pat) (rtl : Bool) (a : Anchor) (ha : leadingAnchor rtl p = some a)
+    (st st' : St) (h : st' ∈ m e p rtl st) : anchorHolds e a st.pos = true := by
+  have := edgeAnchor_holds e p rtl rtl a st ha st' h
+  simpa [edgePos] using this
+
+/-- the published `LeadingAnchor` (right-to-left `Bol` filtered out) is a leading anchor -/
+theorem publishedLeadingAnchor_sound (e : Env) (p : Pat) (rtl : Bool) (a : Anchor)
+    (ha : publishedLeadingAnchor rtl p = some a)
+    (st st' : St) (h : st' ∈ m e p rtl st) : anchorHolds e a st.pos = true := by
+  apply leadingAnchor_sound e p rtl a _ st st' h
+  unfold publishedLeadingAnchor at ha
+  split at ha
+  · split at ha
+    · simp at ha
+    · rename_i hl _; simp at ha; subst ha; exact hl
+  · exact ha
+
+/-- **The trailing anchor holds where the match ends**: if `findLeadingOrTrailingAnchor(root, false)`
+    finds an anchor, it is true at the end position of every success. -/
+theorem trailingAnchor_sound (e : Env) (p : Pat) (rtl : Bool) (a : Anchor) (ha : trailingAnchor rtl p = some a)
+    (st st' : St) (h : st' ∈ m e p rtl st) : anchorHolds e a st'.pos = true := by
+  have := edgeAnchor_holds e p (!rtl) rtl a st ha st' h
+  cases rtl <;> simpa [edgePos] using this
+
+/-- **The leading prefix is a prefix of every match** (left-to-right).  `findPrefix` builds a BYTE
+    string (`bytes.Buffer`; an alternation's branches are intersected byte-wise, which can cut a
+    multi-byte character: `aéx|aèy` publishes `"a\xc3"`), so the statement is about the encoded text:
+    for any encoder `utf8`, the encoding of the text from the start position of a success begins with
+    the prefix.  With Go's encoder this is what the byte-wise string prefix filter relies on. -/
+theorem leadingPrefix_sound (e : Env) (utf8 : Nat → List Nat) (p : Pat) (st st' : St) (h : st' ∈ m e p false st) :
+    ((e.text.drop st.pos).flatMap utf8).take (leadingPrefix utf8 p).1.length = (leadingPrefix utf8 p).1 := by
+  obtain ⟨t, ht, _⟩ := leadingPrefix_ok e utf8 p st st' h
+  unfold bytesFrom at ht
+  rw [ht]; simp
+
+/-- when `tryFindPrefix` returns "continue" the prefix is the whole match: the text consumed by any
+    success encodes to exactly the prefix (this is what lets a concatenation go on appending) -/
+theorem leadingPrefix_exact (e : Env) (utf8 : Nat → List Nat) (p : Pat) (st st' : St) (h : st' ∈ m e p false st)
+    (hc : (leadingPrefix utf8 p).2 = true) :
+    ((e.text.drop st.pos).take (st'.pos - st.pos)).flatMap utf8 = (leadingPrefix utf8 p).1 := by
+  obtain ⟨t, ht, hcont⟩ := leadingPrefix_ok e utf8 p st st' h
+  have hle : st.pos ≤ st'.pos := by simpa [Fwd] using m_fwd e p false st st' h
+  rw [hcont hc, bytesFrom_split e utf8 st.pos st'.pos hle] at ht
+  exact List.append_cancel_right ht
+
+/-- the rune view: with the identity encoding the analysis yields a list of runes, and the text at the
+    start of every success begins with those runes -/
+theorem leadingPrefix_sound_runes (e : Env) (p : Pat) (st st' : St) (h : st' ∈ m e p false st) :
+    (e.text.drop st.pos).take (leadingPrefix (fun r => [r]) p).1.length = (leadingPrefix (fun r => [r]) p).1 := by
+  have := leadingPrefix_sound e (fun r => [r]) p st st' h
+  simpa using this
+
+/-- … and for a pattern whose literals are ASCII the byte prefix Go computes IS that rune prefix -/
+theorem leadingPrefix_sound_ascii (e : Env) (p : Pat) (hp : asciiOnly p = true) (st st' : St)
+    (h : st' ∈ m e p false st) :
+    (e.text.drop st.pos).take (leadingPrefix utf8enc p).1.length = (leadingPrefix utf8enc p).1 := by
+  rw [leadingPrefix_ascii p hp]; exact leadingPrefix_sound_runes e p st st' h
+
+/-! ### at the level of a find call -/
+
+/-- **Every find result respects the published lengths**: group 0 of a result (index, length) has
+    `minLen p ≤ length`, and `length ≤ k` when `maxLen p = some k`. -/
+theorem find_length_bounds (e : Env) (p : Pat) (rtl : Bool) (start : Nat) (st : St)
+    (h : find e p rtl start = some st) :
+    ∃ idx len, lastCap st.caps 0 = some (idx, len) ∧ minLen p ≤ len ∧ ∀ k, maxLen p = some k → len ≤ k := by
+  obtain ⟨i, _, hat⟩ := find_attempt e p rtl start st h
+  obtain ⟨y, hy, _, hcap⟩ := attempt_success e p rtl i st hat
+  refine ⟨_, _, hcap, ?_, ?_⟩
+  · have h1 := minLen_span e p rtl _ y hy
+    have h2 := m_fwd e p rtl _ y hy
+    cases rtl <;> simp [span, Fwd] at h1 h2 <;> omega
+  · intro k hk
+    have h1 := maxLen_span e p rtl _ y hy k hk
+    have h2 := m_fwd e p rtl _ y hy
+    cases rtl <;> simp [span, Fwd] at h1 h2 <;> omega
+
+/-- **Every find result respects the published anchors**: the leading anchor holds at the side of the
+    match where the attempt started (its index left-to-right, its end right-to-left), the trailing
+    anchor at the other side. -/
+theorem find_anchors (e : Env) (p : Pat) (rtl : Bool) (start : Nat) (st : St)
+    (h : find e p rtl start = some st) :
+    ∃ idx len, lastCap st.caps 0 = some (idx, len) ∧
+      (∀ a, leadingAnchor rtl p = some a → anchorHolds e a (if rtl then idx + len else idx) = true) ∧
+      (∀ a, trailingAnchor rtl p = some a → anchorHolds e a (if rtl then idx else idx + len) = true) := by
+  obtain ⟨i, _, hat⟩ := find_attempt e p rtl start st h
+  obtain ⟨y, hy, _, hcap⟩ := attempt_success e p rtl i st hat
+  have h2 := m_fwd e p rtl _ y hy
+  refine ⟨_, _, hcap, ?_, ?_⟩
+  · intro a ha
+    have := leadingAnchor_sound e p rtl a ha _ y hy
+    cases rtl
+    · simp [Fwd] at h2; simpa [Nat.min_eq_left h2] using this
+    · simp [Fwd] at h2
+      have e1 : min i y.pos + (max i y.pos - min i y.pos) = i := by omega
+      simpa [e1] using this
+  · intro a ha
+    have := trailingAnchor_sound e p rtl a ha _ y hy
+    cases rtl
+    · simp [Fwd] at h2
+      have e1 : min i y.pos + (max i y.pos - min i y.pos) = y.pos := by omega
+      simpa [e1] using this
+    · simp [Fwd] at h2; simpa [Nat.min_eq_right h2] using this
+
+/-- **Every left-to-right find result starts with the published prefix** (as bytes of the encoded
+    text from the match index on). -/
+theorem find_prefix (e : Env) (utf8 : Nat → List Nat) (p : Pat) (start : Nat) (st : St)
+    (h : find e p false start = some st) :
+    ∃ idx len, lastCap st.caps 0 = some (idx, len) ∧
+      ((e.text.drop idx).flatMap utf8).take (leadingPrefix utf8 p).1.length = (leadingPrefix utf8 p).1 := by
+  obtain ⟨i, _, hat⟩ := find_attempt e p false start st h
+  obtain ⟨y, hy, _, hcap⟩ := attempt_success e p false i st hat
+  have h2 : i ≤ y.pos := by simpa [Fwd] using m_fwd e p false _ y hy
+  refine ⟨_, _, hcap, ?_⟩
+  have := leadingPrefix_sound e utf8 p _ y hy
+  simpa [Nat.min_eq_left h2] using this
+
+/-- **`MinRequiredLength` as the scan loop consumes it**: an attempt can only succeed where at least
+    `minLen p` characters remain in the direction of the scan — to the right of the attempt position
+    left-to-right, to its left right-to-left. -/
+theorem minLen_remaining (e : Env) (p : Pat) (rtl : Bool) (i : Nat) (hi : i ≤ e.n) (st : St)
+    (h : attempt e p rtl i = some st) : if rtl then minLen p ≤ i else minLen p ≤ e.n - i := by
+  obtain ⟨y, hy, _, _⟩ := attempt_success e p rtl i st h
+  have h1 := minLen_span e p rtl _ y hy
+  have h2 := m_fwd e p rtl _ y hy
+  have h3 := (m_wf e p rtl { pos := i, caps := [] } ⟨hi, by simp⟩ y hy).1
+  cases rtl <;> simp [span, Fwd] at h1 h2 ⊢ <;> omega
+
+/-- … which is the hypothesis `MinLenSound` under which the scan-loop theorems of C03 are proved, here
+    discharged for the specification's attempt (reported as group 0's index and length) -/
+theorem minLenSound_spec (e : Env) (p : Pat) (rtl : Bool) :
+    Scan.MinLenSound rtl e.n (minLen p) (fun i => (attempt e p rtl i).bind (fun st => lastCap st.caps 0)) := by
+  intro pos i l hpos hat
+  cases hst : attempt e p rtl pos with
+  | none => simp [hst] at hat
+  | some st => exact minLen_remaining e p rtl pos hpos st hst
+
+/-! ### non-vacuity: concrete instances -/
+
+/-- `^ab{1,3}(?:c|cd)$` (multiline) on "x\nabbc": Concatenate(Bol, One a, Oneloop b{1,3},
+    Alternate(c, cd), Eol) -/
+def demoPat : Pat :=
+  .seq (.anchor .bol) (.seq (.chr (.one 97 false)) (.seq (.quant false 1 (some 3) (.chr (.one 98 false)))
+    (.seq (.alt (.chr (.one 99 false)) (.seq (.chr (.one 99 false)) (.chr (.one 100 false)))) (.anchor .eol))))
+def demoEnv : Env := { text := [120, 10, 97, 98, 98, 99], textstart := 0, named := [], word := [], fold := [] }
+def demoStart : St := { pos := 2, caps := [] }
+def demoEnd : St := { pos := 6, caps := [] }
+
+theorem demo_success : demoEnd ∈ m demoEnv demoPat false demoStart := by decide
+
+example : minLen demoPat = 3 ∧ maxLen demoPat = some 6 := by decide
+example : leadingAnchor false demoPat = some .bol ∧ trailingAnchor false demoPat = some .eol := by decide
+example : leadingPrefix utf8enc demoPat = ([97, 98], false) := by decide
+example : find demoEnv demoPat false 0 = some { pos := 6, caps := [(0, 2, 4)] } := by decide
+example : 3 ≤ 6 - 2 := minLen_sound demoEnv demoPat false demoStart demoEnd demo_success
+example : 6 - 2 ≤ 6 := maxLen_sound demoEnv demoPat false demoStart demoEnd demo_success 6 (by decide)
+example : anchorHolds demoEnv .bol 2 = true :=
+  leadingAnchor_sound demoEnv demoPat false .bol (by decide) demoStart demoEnd demo_success
+example : anchorHolds demoEnv .eol 6 = true :=
+  trailingAnchor_sound demoEnv demoPat false .eol (by decide) demoStart demoEnd demo_success
+example : (([97, 98, 98, 99] : List Nat).flatMap utf8enc).take 2 = [97, 98] :=
+  leadingPrefix_sound demoEnv utf8enc demoPat demoStart demoEnd demo_success
+example : asciiOnly demoPat = true := by decide
+example : 3 ≤ demoEnv.n - 2 := minLen_remaining demoEnv demoPat false 2 (by decide) _ (by decide : attempt demoEnv demoPat false 2 = some { pos := 6, caps := [(0, 2, 4)] })
+
+/-- right-to-left: `\bab$` matched leftwards from 5 on "x ab\n": the pattern-order LAST child leads -/
+def demoRtl : Pat := .seq (.anchor .boundary) (.seq (.chr (.one 97 false)) (.seq (.chr (.one 98 false)) (.anchor .eol)))
+def demoRtlEnv : Env := { text := [120, 32, 97, 98, 10], textstart := 5, named := [], word := [97, 98, 120], fold := [] }
+example : leadingAnchor true demoRtl = some .eol ∧ trailingAnchor true demoRtl = some .boundary := by decide
+example : find demoRtlEnv demoRtl true 5 = some { pos := 2, caps := [(0, 2, 2)] } := by decide
+example : maxLen demoRtl = some (minLen demoRtl) := by decide
+
+/-- a "continue" prefix: `(?>ab){2}` is exactly "abab" -/
+example : leadingPrefix utf8enc (.quant false 2 (some 2) (.atomic (.seq (.chr (.one 97 false)) (.chr (.one 98 false)))))
+    = ([97, 98, 97, 98], true) := by decide
+
+/-- the byte-wise intersection cuts a character: `aéx|aèy` publishes `"a\xc3"` -/
+example : leadingPrefix utf8enc (.seq (.chr (.one 97 false))
+    (.alt (.seq (.chr (.one 233 false)) (.chr (.one 120 false))) (.seq (.chr (.one 232 false)) (.chr (.one 121 false)))))
+    = ([97, 0xC3], false) := by decide
+
+/-! ### the defect fixed by d917f9b, documented
+
+Before the fix the `Alternate` case compared every later branch with the FIRST branch's whole prefix and
+kept only the last comparison.  For `(a)bx|(a)cy|(a)bz` it published `"ab"`, which is not a prefix of
+the match "acy" (the string-prefix filter then missed the match: `FindStringMatch("acy")` returned
+nil).  The current code yields `"a"`. -/
+
+def defectPat : Pat :=
+  .alt (.seq (.cap 1 (.chr (.one 97 false))) (.seq (.chr (.one 98 false)) (.chr (.one 120 false))))
+    (.alt (.seq (.cap 1 (.chr (.one 97 false))) (.seq (.chr (.one 99 false)) (.chr (.one 121 false))))
+      (.seq (.cap 1 (.chr (.one 97 false))) (.seq (.chr (.one 98 false)) (.chr (.one 122 false)))))
+def defectEnv : Env := { text := [97, 99, 121], textstart := 0, named := [], word := [], fold := [] }
+
+example : leadingPrefixOldAlt utf8enc defectPat = [97, 98] := by decide
+example : leadingPrefix utf8enc defectPat = ([97], false) := by decide
+example : find defectEnv defectPat false 0 = some { pos := 3, caps := [(1, 0, 1), (0, 0, 3)] } := by decide
+example : ¬ ((defectEnv.text.drop 0).flatMap utf8enc).take 2 = leadingPrefixOldAlt utf8enc defectPat := by decide
+
 end RegexVerif.Props.C04
